@@ -4,6 +4,7 @@ import Blots.Drv.Print
 import Blots.Drv.Eval
 import Blots.Drv.NumText
 import Blots.Drv.Json
+import Blots.Drv.Ident
 /-
   Line-protocol driver for the executable model: one request per line, one response per
   line.  A request is the inside of an S-expression list: `cmd arg …`.
@@ -13,6 +14,7 @@ open Blots
 
 def handlers : List (List Sx → Option String) := [
   Drv.handleJson,
+  Drv.handleIdent,
   Drv.handleUnits,
   Drv.handleNumText,
   Drv.handleCore,
